@@ -228,6 +228,8 @@ Proof.
     all: try (pwt P; fail).
     + exfalso. unfold guard_open in Heqb. rewrite Q0a in Heqb.
       rewrite (quiet_unfinished c s0 i m FE ST FR IQ Heqo) in Heqb; [discriminate | rewrite Heqp; reflexivity].
+    + exfalso. apply andb_true_iff in Heqb. destruct Heqb as (_ & Fi).
+      rewrite (quiet_unfinished c s0 i m FE ST FR IQ Heqo) in Fi; [discriminate | rewrite Heqp; reflexivity].
     + intro X. destruct (R X) as ([D | (D1 & D2)] & E); split; auto.
       exfalso. rewrite (quiet_open c s i m FE ST FR Heqo) in D2; [discriminate | rewrite Heqp; reflexivity].
   - unf0; rewrite ?FE, ?Q0a, ?Q0b, ?Q0c, ?Q0d in H; brk; rp; ifs; simpl in *; rwg; rwm; simpl in *;
